@@ -13,3 +13,18 @@ claim("C10",
       "For every enumerated / generated input: Parse returns exactly one of (tree, error); accepted trees pass expr.Validate and the harness's own recursive shape predicate (which also enters range boundaries and list elements); ToPostgres returns non-empty SQL xor an error; parameterized SQL is empty on error; both renderers report Parse's error whenever Parse fails.",
       "The shape predicate is the harness's reading of the property text (trusted base). Trees built by hand through the constructors are out of scope.",
       "DESIGN.md section 4, C10")
+claim("C05",
+      "exhaustive tree enumeration + rapid trees; precedence printer -> Parse -> DeepEqual",
+      "All query trees of operator depth <= 2 over 14 leaf forms (quick; depth <= 3 over 3 leaves in thorough) and random deeper trees are printed with parentheses exactly where the documented table requires them (also with redundant and full parenthesisation and random whitespace); Parse must return a tree deep-equal to the one built from the same generator value through the public constructors. A per-(outer, inner, position) histogram shows which precedence cells were exercised.",
+      "The printer is the executable form of the documented table (trusted); expr constructors are trusted; NOT NOT a, +NOT a and a^2~3 are printed with parentheses because the table does not say they may be written bare.",
+      "DESIGN.md section 4, C05")
+claim("C07",
+      "exhaustive trees x all subsets of AND nodes; metamorphic pair explicit-AND text vs juxtaposed text",
+      "For every enumerated / generated tree every non-empty subset of its AND nodes (<= 6) is written as whitespace; if the juxtaposed text parses, the explicit text must parse to the identical tree, and for gaps with a term token on both sides the juxtaposed text must be accepted whenever the explicit one is.",
+      "Gaps after an argument-less ~ or ^ are excluded (the next term is that operator's number by grammar). C05 vouches for the explicit reading.",
+      "DESIGN.md section 4, C07")
+claim("C09",
+      "exhaustive token sequences x layout variants; rapid trees x parenthesis variants; metamorphic Parse pairs",
+      "Every token sequence up to a stated length and random (also mutated, almost-valid) sequences are compared with whitespace / keyword-case variants: equal acceptance and identical trees. Printed trees (explicit and juxtaposed) are compared with variants carrying redundant parentheses around the whole query, operands of explicit operators, group bodies and field values: the variant must parse to the identical tree. Both default-field modes.",
+      "Whitespace is only changed at harness token boundaries and only removed where one neighbour is a one-character symbol other than '-'.",
+      "DESIGN.md section 4, C09")
